@@ -1,10 +1,10 @@
 """C02 - No history of snapshot/delete/clean ever damages a remaining snapshot."""
-from specs import gc, snapbody, snapshot
+from specs import c18, gc, snapbody, snapshot
 
 LEVEL = 'proof'
 UNITS = [gc.delete_unit('C02'), gc.clean_unit('C02'), snapbody.download_snapshot_unit('C02'),
-         snapshot.worker_unit('C02'), snapshot.run_unit('C02')]
-BOUNDED = [{'name': 'C02.history', 'script': 'bounded/hist.py', 'timeout': 1200, 'args': {'prop': 'C02'}, 'bound': 'random histories of snapshot/delete/clean by owner, shared-key and independent-key users (and one unencrypted user): <= 10 operations, <= 4 paths per snapshot from 6 overlapping contents, chunks 8..64, 2 (thorough: 10) seeded histories per mode; every remaining snapshot is restored by its owner after each destructive step'}]
+         snapshot.worker_unit('C02'), snapshot.run_unit('C02')] + c18.units('C02')[:1]
+BOUNDED = [{'name': 'C02.history', 'script': 'bounded/hist.py', 'timeout': 1200, 'args': {'prop': 'C02'}, 'bound': 'random histories of snapshot/delete/clean by owner, shared-key and independent-key users (and one unencrypted user): <= 10 operations, <= 4 paths per snapshot from 6 overlapping contents, chunks 8..64, 2 (thorough: 40) seeded histories per mode; every remaining snapshot is restored by its owner after each destructive step; the commands use a snapshot cache per user / shared by all users / none (by history), the oracle reads the backend only'}]
 TRUSTED = [
     'vf symbolic executor (/verif/vf): encoding of the Python subset (DESIGN 2.2)',
     'z3 5.1 (API + z3-new CLI), cvc5 1.0.3 (strings)',
